@@ -334,7 +334,7 @@ def diag(ctx, case, rec):
 # ------------------------------------------------------------------------------ run
 def run(ctx):
     po = C.proof_obligations(ctx.prop)
-    ncases = 700 if ctx.quick else 14000
+    ncases = 3000 if ctx.quick else 30000
     cases, recs = [], []
     stats = dict(flags={}, wkinds={}, families={}, shapes={}, raised=0, guard_gated=0, n_lt_2=0,
                  nonzero_rtol=0, exact_family=0, relational_runs=0, standardscaler_compared=0,
@@ -359,9 +359,19 @@ def run(ctx):
     stats["guard_gated"] = sum(gated)
     idx = [i for i in range(len(cases)) if not gated[i]]
     # correspondence inside Coq
-    per = 120
-    groups = [idx[i:i + per] for i in range(0, len(idx), per)]
-    shards = [shard([case_coq(cases[i], recs[i]) for i in g]) for g in groups]
+    groups, shards, cur_g, cur_items, size = [], [], [], [], 0
+    for i in idx:
+        item = case_coq(cases[i], recs[i])
+        if cur_g and (size + len(item) > 250000 or len(cur_g) >= 300):
+            groups.append(cur_g)
+            shards.append(shard(cur_items))
+            cur_g, cur_items, size = [], [], 0
+        cur_g.append(i)
+        cur_items.append(item)
+        size += len(item)
+    if cur_g:
+        groups.append(cur_g)
+        shards.append(shard(cur_items))
     ex_idx = [i for i in idx if cases[i]["exact"] and not recs[i]["raised"]]
     if ex_idx:
         groups.append(ex_idx)
